@@ -704,7 +704,7 @@ func nestWKB(r *h.Rand, inner []byte, k int) []byte {
 func init() {
 	h.Register(&h.Monitor{
 		ID: "C05",
-		Rule: "exhaustive short inputs (every 0/1/2-byte string through both vector-tile entry points; every WKB message byte-order {0,1,2,0xff} x type word {0..8, EWKB/flag variants, 1001, ...} x boundary counts {0,1,2,2^27+3,2^28,2^28+1,2^31,2^32-1} x 4 payloads and every prefix of it through all 24 WKB paths; every prefix of two-member multi geometries / collections whose member header carries EWKB flags (with and without the announced SRID bytes), the other byte order or another type; every WKT sentence of <= 4 (quick) / <= 5 (thorough) tokens over a 16-token alphabet through the 8 parsers) plus structure-aware mutations (truncate, splice, bit flips, count overwrite, insert/delete/repeat, collection nesting to 64 levels, JSON value replacement / member dropping / deep arrays, BSON length corruption, hand-built hostile tiles with arbitrary command words, counts and wire types, gzip damage) of valid encodings of generated geometries, features and layer sets, through all 58 decoder entry points. " +
+		Rule: "exhaustive short inputs (every 0/1/2-byte string through both vector-tile entry points; every WKB message byte-order {0,1,2,0xff} x type word {0..8, EWKB/flag variants, 1001, ...} x boundary counts {0,1,2,2^27+3,2^28,2^28+1,2^31,2^32-1} x 4 payloads and every prefix of it through all 24 WKB paths; every prefix of two-member multi geometries / collections whose member header carries EWKB flags (with and without the announced SRID bytes), the other byte order or another type; every WKT sentence of <= 4 (quick) / <= 5 (thorough) tokens over a 16-token alphabet through the 8 parsers; every one-token insertion, deletion and replacement (12 tokens) at every position of 10 valid sentences of all kinds) plus structure-aware mutations (truncate, splice, bit flips, count overwrite, insert/delete/repeat, collection nesting to 64 levels, JSON value replacement / member dropping / deep arrays, BSON length corruption, hand-built hostile tiles with arbitrary command words, counts and wire types, gzip damage) of valid encodings of generated geometries, features and layer sets, through all 58 decoder entry points. " +
 			"non-trivial = an input that at least one decoder of its family accepts or that has >= 8 bytes; distinct = hash of (family, input)",
 		MinNontrivial: h.Fixed(100000, 2000000),
 		Assumptions: []string{
@@ -915,6 +915,19 @@ func init() {
 					c.Nontrivial(h.Mix(0x5ca7, idx))
 					if idx%2000 == 7 {
 						c.Sample(map[string]interface{}{"input": string(in), "how": what})
+					}
+				},
+			},
+			{
+				// every one-token edit of valid sentences of every kind: a token inserted at, deleted from or put in place of
+				// every position (the short-sentence enumeration stops at 5 tokens; a polygon with a dangling comma has 7)
+				Name: "wkt-token-edits", Count: func(string) uint64 { return uint64(len(c05wktEdits())) }, Exhaustive: h.Always,
+				Run: func(c *h.Ctx, idx uint64, r *h.Rand) {
+					e := c05wktEdits()[idx]
+					c05run(c, "wkt", []byte(e.text), e.how)
+					c.Nontrivial(h.Mix(6, idx))
+					if idx%499 == 3 {
+						c.Sample(map[string]interface{}{"family": "wkt", "input_text": e.text, "how": e.how})
 					}
 				},
 			},
@@ -1381,4 +1394,66 @@ func C05Seeds(seed uint64) map[string][][]byte {
 		out[w.family] = append(out[w.family], w.in)
 	}
 	return out
+}
+
+type c05wktEdit struct{ text, how string }
+
+var c05wktEditList []c05wktEdit
+
+// c05wktEdits lists every sentence obtained from a valid one by inserting, deleting or replacing one token.
+func c05wktEdits() []c05wktEdit {
+	if c05wktEditList != nil {
+		return c05wktEditList
+	}
+	valid := []string{
+		"POINT(1 2)",
+		"MULTIPOINT((1 2),(3 4))",
+		"MULTIPOINT(1 2,3 4)",
+		"LINESTRING(0 0,1 1,2 0)",
+		"MULTILINESTRING((0 0,1 1),(2 2,3 3))",
+		"POLYGON((0 0,4 0,4 4,0 0),(1 1,2 1,2 2,1 1))",
+		"MULTIPOLYGON(((0 0,4 0,4 4,0 0),(1 1,2 1,2 2,1 1)),((5 5,6 5,6 6,5 5)))",
+		"GEOMETRYCOLLECTION(POINT(1 2),LINESTRING(0 0,1 1),POLYGON((0 0,1 0,1 1,0 0)))",
+		"GEOMETRYCOLLECTION(GEOMETRYCOLLECTION(MULTIPOINT((1 2)),POLYGON EMPTY),MULTILINESTRING((0 0,1 1)))",
+		"POLYGON EMPTY",
+	}
+	ins := []string{",", "(", ")", " ", "EMPTY", "1", "1 2", "POINT", "Z", ")(", "),(", "()"}
+	seen := map[string]bool{}
+	add := func(t, how string) {
+		if !seen[t] {
+			seen[t] = true
+			c05wktEditList = append(c05wktEditList, c05wktEdit{t, how})
+		}
+	}
+	for _, v := range valid {
+		// tokens: words / numbers, and each of ( ) , blank by itself
+		var toks []string
+		for i := 0; i < len(v); {
+			j := i
+			if strings.ContainsRune("(), ", rune(v[i])) {
+				j = i + 1
+			} else {
+				for j < len(v) && !strings.ContainsRune("(), ", rune(v[j])) {
+					j++
+				}
+			}
+			toks = append(toks, v[i:j])
+			i = j
+		}
+		add(v, "valid sentence")
+		for i := 0; i <= len(toks); i++ {
+			pre, post := strings.Join(toks[:i], ""), strings.Join(toks[i:], "")
+			for _, t := range ins {
+				add(pre+t+post, fmt.Sprintf("token %q inserted at position %d of %q", t, i, v))
+			}
+			if i < len(toks) {
+				rest := strings.Join(toks[i+1:], "")
+				add(pre+rest, fmt.Sprintf("token %d deleted from %q", i, v))
+				for _, t := range ins {
+					add(pre+t+rest, fmt.Sprintf("token %d of %q replaced by %q", i, v, t))
+				}
+			}
+		}
+	}
+	return c05wktEditList
 }
